@@ -1706,7 +1706,8 @@ class INTEGER(DataOperation):
         vm.dc += 1
 
     def assemble(self):
-        return bytes([self.args[0] & 0xFF00, self.args[0] & 0xFF])
+        v = to_u16(self.args[0])
+        return bytes([v >> 8, v & 0xFF])
 
 
 class DSKIP(DataOperation):
@@ -1748,7 +1749,7 @@ class LP_STRING(DataOperation):
 
     def assemble(self):
         s = self.args[0]
-        length_bytes = [len(s) & 0xFF00, len(s) & 0xFF]
+        length_bytes = [(len(s) >> 8) & 0xFF, len(s) & 0xFF]
         data_bytes = []
         for c in s:
             data_bytes.append(0)
